@@ -65,6 +65,7 @@ type Clause struct {
 	E    Expr
 	Src  string
 	Loop int
+	When Expr // decreases: condition on the entry state under which the measure is claimed
 }
 
 type FuncContract struct {
@@ -86,9 +87,14 @@ type FuncContract struct {
 	ErrExit      map[int]*Clause // loop ordinal -> ErrDecimal local that must be clean whenever the loop iterates again
 	Hints        []*Clause       // ground lemma instances / extra facts to be proved then assumed at entry? (proved as obligations first)
 	Outs         []string        // destination parameters (class D: defined before read, fully written)
-	Reads        []Expr          // restricts which fields of an operand are read (class D)
-	OutFields    []Expr          // single fields that are written on every return (class D)
-	OutsWhen     *Clause         // condition (over the post state) under which the destinations are fully written
+	LoopLets     map[int][]*Clause
+	BackHints    map[int][]*Clause
+	BackAsserts  map[int][]*Clause
+	Imports      map[string][]string // wrapper -> labels of the delegate's ensures assumed at its call sites
+	PostHints    []*Clause           // lemma applications instantiated at each return
+	Reads        []Expr              // restricts which fields of an operand are read (class D)
+	OutFields    []Expr              // single fields that are written on every return (class D)
+	OutsWhen     *Clause             // condition (over the post state) under which the destinations are fully written
 	Operands     []string
 	Defines      []Expr // leaves always defined by the function
 	NoBody       bool
@@ -444,7 +450,7 @@ var clauseKW = map[string]bool{
 	"func": true, "requires": true, "ensures": true, "assigns": true, "nilable": true, "fresh": true,
 	"trusted": true, "layer": true, "loop": true, "props": true, "define": true, "lemma": true,
 	"global": true, "outs": true, "operands": true, "defines": true, "hint": true, "pure": true,
-	"allocates": true, "sample": true, "reads": true, "exported": true, "axiom": true, "local": true, "reveal": true, "assert": true, "using": true, "delegates": true,
+	"allocates": true, "sample": true, "reads": true, "posthint": true, "import": true, "exported": true, "axiom": true, "local": true, "reveal": true, "assert": true, "using": true, "delegates": true,
 }
 
 var tagRe = regexp.MustCompile(`^\{([A-Za-z0-9_,\- ]*)\}\s*`)
@@ -584,6 +590,20 @@ func ParseSpecFile(path string) (*Spec, error) {
 				for _, t := range strings.FieldsFunc(rest, func(r rune) bool { return r == ',' || r == ' ' }) {
 					cur.Nilable[t] = true
 				}
+			case "import":
+				// import WRAPPER: label, label: at calls of WRAPPER (a function with a delegates clause) the named
+				// ensures of the operation it delegates to are assumed for the case that no error was pending
+				k := strings.LastIndex(rest, ":")
+				if k < 0 {
+					panic(fmt.Sprintf("line %d: import needs WRAPPER: labels", l.no))
+				}
+				if cur.Imports == nil {
+					cur.Imports = map[string][]string{}
+				}
+				cur.Imports[strings.TrimSpace(rest[:k])] = strings.FieldsFunc(rest[k+1:], func(r rune) bool { return r == ',' || r == ' ' })
+			case "posthint":
+				// a lemma instantiated at every return, in the return's environment (post state, ret values)
+				cur.PostHints = append(cur.PostHints, &Clause{Kind: "posthint", E: mustExpr(rest, l.no), Src: rest})
 			case "reads":
 				// reads p.F, p.G: of the operand *p only the listed fields are read; the others are poison
 				// at entry (class D) and need not be defined at call sites
@@ -647,7 +667,25 @@ func ParseSpecFile(path string) (*Spec, error) {
 					panic(fmt.Sprintf("line %d: bad loop ordinal", l.no))
 				}
 				tags, name, r := splitTags(f[2])
-				c := &Clause{Kind: f[1], Tags: tags, Name: name, E: mustExpr(r, l.no), Src: r, Loop: n}
+				letName := ""
+				if f[1] == "let" {
+					if i := strings.Index(r, "="); i > 0 {
+						letName = strings.TrimSpace(r[:i])
+						r = strings.TrimSpace(r[i+1:])
+					}
+				}
+				var when Expr
+				if f[1] == "decreases" || f[1] == "backassert" {
+					// decreases M when COND: termination is claimed for calls whose entry state satisfies COND
+					if i := strings.Index(r, " when "); i >= 0 {
+						when = mustExpr(r[i+6:], l.no)
+						r = r[:i]
+					}
+				}
+				c := &Clause{Kind: f[1], Tags: tags, Name: name, E: mustExpr(r, l.no), Src: r, Loop: n, When: when}
+				if letName != "" {
+					c.Name = letName
+				}
 				switch f[1] {
 				case "invariant":
 					cur.Invs[n] = append(cur.Invs[n], c)
@@ -658,6 +696,24 @@ func ParseSpecFile(path string) (*Spec, error) {
 						cur.ErrExit = map[int]*Clause{}
 					}
 					cur.ErrExit[n] = c
+				case "let":
+					// loop k let NAME = EXPR: a ghost constant holding the value of EXPR at the loop head of the current iteration
+					if cur.LoopLets == nil {
+						cur.LoopLets = map[int][]*Clause{}
+					}
+					cur.LoopLets[n] = append(cur.LoopLets[n], c)
+				case "backassert":
+					// a fact proved at the end of the body and then available to the back-edge obligations (proof step)
+					if cur.BackAsserts == nil {
+						cur.BackAsserts = map[int][]*Clause{}
+					}
+					cur.BackAsserts[n] = append(cur.BackAsserts[n], c)
+				case "backhint":
+					// a lemma application instantiated at the end of the body (may use the loop's let constants)
+					if cur.BackHints == nil {
+						cur.BackHints = map[int][]*Clause{}
+					}
+					cur.BackHints[n] = append(cur.BackHints[n], c)
 				case "hint":
 					if cur.LoopHints == nil {
 						cur.LoopHints = map[int][]*Clause{}
